@@ -71,9 +71,14 @@ func rootCause(op *opDef, c Case, i int, fam string) string {
 		}
 		return true
 	}
+	anyT := false
+	for _, b := range c.Args {
+		anyT = anyT || (b.Buf == 0 && b.T)
+	}
 	switch op.Name {
 	case "AddVec", "SubVec", "MulElemVec", "DivElemVec", "ScaleVec", "AddScaledVec", "MulVec", "SolveVec":
-		if !a.Same && kind == "V" && (overlap || fam == famDisjointReject) && vecOffAndInc(c.Recv, a.W) {
+		// (cases with a TVec() operand have causes of their own, see below)
+		if !anyT && !a.Same && kind == "V" && (overlap || fam == famDisjointReject) && vecOffAndInc(c.Recv, a.W) {
 			// SolveVec never checks its matrix argument (see below); its
 			// vector argument goes through the VecDense test.
 			if op.Name != "SolveVec" || i == 1 {
@@ -90,6 +95,20 @@ func rootCause(op *opDef, c Case, i int, fam string) string {
 		// workspace and the remaining operand is checked against that
 		// workspace (MulVec) or not at all (Mul: `if restore == nil`).
 		return "mul-identity-skips-check-of-other-operand"
+	}
+	switch op.Name {
+	case "AddVec", "SubVec", "MulElemVec", "DivElemVec", "AddScaledVec":
+		if a.Same && a.T && fam == famIdentityReject {
+			// the operand is untransposed for the data but compared with
+			// the receiver while still wrapped (`v != a`).
+			return "vec-identity-transposed-rejected"
+		}
+	case "ScaleVec", "CopyVec":
+		if !a.Same && a.T && (overlap || fam == famResultWrong) {
+			// a TransposeVec is not a RawVectorer: no overlap check, no
+			// direction awareness.
+			return "vec-transposed-operand-unchecked"
+		}
 	}
 	switch op.Name {
 	case "DivElemVec":
@@ -203,6 +222,28 @@ func rootCause(op *opDef, c Case, i int, fam string) string {
 	case "TriCopy":
 		if !a.Same && fam == famResultWrong {
 			return "tridense-copy-forward-only"
+		}
+	}
+	switch op.Name {
+	case "Cholesky.SolveTo", "PivotedCholesky.SolveTo":
+		// no handling of an aliasing right-hand side at all (LU.SolveTo has)
+		if (!a.Same && fam == famOverlapAccepted) || (a.Same && a.T && fam == famIdentityReject) {
+			return "cholesky-solveto-no-aliasing-handling"
+		}
+	case "QR.SolveTo", "LQ.SolveTo":
+		if !a.Same && fam == famOverlapAccepted {
+			return "qr-lq-solveto-rhs-unchecked"
+		}
+	case "LU.SolveTo":
+		if !a.Same && kind == "V" && fam == famOverlapAccepted {
+			return "solveto-vector-rhs-unchecked"
+		}
+	case "TriDense.SolveTo":
+		if !a.Same && i == 1 && kind == "V" && fam == famOverlapAccepted {
+			return "solveto-vector-rhs-unchecked"
+		}
+		if !a.Same && i == 0 && overlap {
+			return "tridense-solveto-receiver-unchecked"
 		}
 	}
 	if op.Name == "MulVec" && !a.Same && i == 0 && (kind == "U" || kind == "L") && fam == famMutatedBefore {
